@@ -234,7 +234,7 @@ func prepareCall(fr *frame, c *ssa.CallCommon, ins ssa.Instruction) (fn Val, arg
 		if recv.t == nil {
 			fr.fault(ins, "nilderef", "invalid memory address or nil pointer dereference")
 		}
-		if nat, isNat := recv.v.(Native); isNat {
+		if nat, isNat := recv.v.(Native); isNat && !typeInterpreted(recv.t) {
 			fn = nativeMethod{nat, c.Method.Name()}
 		} else if rt, isRT := recv.v.(rtypeVal); isRT {
 			fn = rtypeMethod{rt, c.Method.Name()}
@@ -251,6 +251,21 @@ func prepareCall(fr *frame, c *ssa.CallCommon, ins ssa.Instruction) (fn Val, arg
 		args = append(args, fr.get(a))
 	}
 	return
+}
+
+// typeInterpreted: the (pointer to a) named type is defined in an interpreted
+// package, so its methods are run from SSA even when the value inside is native
+// (e.g. slip.Time wrapping a time.Time).
+func typeInterpreted(t types.Type) bool {
+	if p, ok := t.Underlying().(*types.Pointer); ok {
+		if _, named := types.Unalias(t).(*types.Named); !named {
+			t = p.Elem()
+		}
+	}
+	if n, ok := types.Unalias(t).(*types.Named); ok && n.Obj().Pkg() != nil {
+		return in.pkgInterpreted(n.Obj().Pkg().Path())
+	}
+	return false
 }
 
 type nativeMethod struct {
@@ -569,7 +584,7 @@ func visitInstr(fr *frame, instr ssa.Instruction) continuation {
 	case *ssa.Store:
 		addr := fr.get(instr.Addr)
 		checkPoison(addr)
-		p, ok := addr.(*Val)
+		p, ok := asPtr(addr)
 		if !ok {
 			unsupported(fmt.Sprintf("store through %T", addr))
 		}
@@ -634,7 +649,7 @@ func visitInstr(fr *frame, instr ssa.Instruction) continuation {
 	case *ssa.FieldAddr:
 		x := fr.get(instr.X)
 		checkPoison(x)
-		p, ok := x.(*Val)
+		p, ok := asPtr(x)
 		if !ok {
 			unsupported(fmt.Sprintf("FieldAddr on %T in %s", x, fr.fn))
 		}
